@@ -37,13 +37,15 @@ DefaultReads(d, after, arr) ==
     {"C27|default|after=" \o after \o "|slot=" \o Slots4[si]
         \o "|want=" \o (IF d[<<Default, Slots4[si]>>] # None THEN "default" ELSE "builtin") \o "|got=" \o ToString(arr[si]) :
         si \in {x \in 1..4 : ~P_C27_Default(d, Slots4[x], arr[x])}}
-\* one signature per class: the exact product does not fit int64 (the real code multiplies in int64), or a
-\* wrong value although it fits; the concrete rate / amount / answer is in the replay
+\* one signature per class: the expected answer is a saturated bound, the exact product does not fit int64
+\* (where an int64 multiplication would wrap), or a wrong value although everything fits; the concrete
+\* rate / amount / answer is in the replay
 SignOf(r) == IF r > 0 THEN "rate-positive" ELSE IF r < 0 THEN "rate-negative" ELSE "rate-zero"
 Computes(d, cps) ==
     {LET c == cps[k]
          r == Rate(d, c.p, c.s)
-     IN IF Overflows(c.a, r) THEN "C27|compute|int64-overflow|" \o SignOf(r)
+     IN IF Saturates(c.a, r) THEN "C27|compute|wrong-saturation|" \o SignOf(r)
+        ELSE IF Overflows(c.a, r) THEN "C27|compute|int64-overflow|" \o SignOf(r)
         ELSE "C27|compute|wrong-value|" \o SignOf(r) :
         k \in {j \in 1..Len(cps) : ~P_C27_Compute(d, cps[j].p, cps[j].s, cps[j].a, [neg |-> cps[j].neg, mag |-> cps[j].mag])}}
 
